@@ -207,7 +207,7 @@ def run(ctx):
             m = re.match(r'<<"ACCEPT", (\d+)>>', line)
             if m:
                 acc.add(int(m.group(1)))
-            m = re.match(r'<<"REJECT", (\d+), (.*)>>$', line)
+            m = re.match(r'<<"REJECT", (\d+), (.*)', line, re.S)
             if m:
                 rej[int(m.group(1))] = m.group(2)
     lost = [r["id"] for r in recs if r["id"] not in acc and r["id"] not in rej]
